@@ -484,13 +484,23 @@ def gen_group(r, K, g, base, rich, exec_safe):
     sections = []
     alts = []
     wraps = []
+    pair_of = {}          # section index -> rep variable of a sequential loop around this and the next section
+    s = 0
+    while s < n_sec:
+        if rich and s + 1 < n_sec and r.random() < 0.15:
+            pair_of[s] = pair_of[s + 1] = "rq%d_%d" % (g, s)
+            s += 2
+        else:
+            s += 1
     for s in range(n_sec):
         ctx["sec"] = s
         w = r.random() if rich else 1.0
+        if s in pair_of:
+            w = 0.99
         wraps.append(w)
         # a section repeated by a sequential loop may depend on the loop variable, so that a missing
         # barrier between two rounds changes the result
-        ctx["rep"] = ("rp%d_%d" % (g, s)) if 0.2 <= w < 0.3 else None
+        ctx["rep"] = pair_of.get(s) or (("rp%d_%d" % (g, s)) if 0.2 <= w < 0.3 else None)
         dec = decide(r, ctx)
         alts.append(gen_section(r, ctx, dec, alt=True) if rich else None)   # same role, other details
         sections.append(gen_section(r, ctx, dec))
@@ -498,8 +508,16 @@ def gen_group(r, K, g, base, rich, exec_safe):
     ctx["rep"] = None
     # arrange: some sections wrapped in uniform control flow (conditions are the same for every
     # thread; the execution checks call with N >= 1, M >= 2)
-    for i, sec in enumerate(sections):
+    i = 0
+    while i < len(sections):
+        sec = sections[i]
         w = wraps[i]
+        if i in pair_of and i + 1 < len(sections) and pair_of.get(i + 1) == pair_of[i]:
+            rep = pair_of[i]
+            inner_stmts.append(Seq("for", "for (int %s = 0; %s < 2; ++%s) {" % (rep, rep, rep), [sec, sections[i + 1]]))
+            feats.add("two-sections-in-for")
+            i += 2
+            continue
         if w < 0.12:
             inner_stmts.append(If("N > 0", [sec]))
             feats.add("inner-in-if")
@@ -520,6 +538,7 @@ def gen_group(r, K, g, base, rich, exec_safe):
         if rich and r.random() < 0.1 and i + 1 < len(sections):
             inner_stmts.append(Leaf("barrier"))
             feats.add("barrier")
+        i += 1
     # nest the outer loops
     node_kids = inner_stmts
     extra = ""
